@@ -775,10 +775,36 @@ class Class(Node):
         # Exclude the root node's name
         return ComponentRef.from_tuple(tuple(reversed(names[:-1])))
 
+    def _is_placeholder(self) -> bool:
+        """True for the content-free packages that the parser creates for the
+        path of a 'within' clause (see parser.file_to_tree)"""
+        return (
+            self.type == "package"
+            and not self.symbols
+            and not self.extends
+            and not self.imports
+            and not self.equations
+            and not self.initial_equations
+            and not self.statements
+            and not self.initial_statements
+            and not self.functions
+            and not self.comment
+            and not self.annotation
+            and not (self.encapsulated or self.partial or self.final)
+        )
+
     def _extend(self, other: "Class") -> None:
         for class_name in other.classes.keys():
             if class_name in self.classes.keys():
-                self.classes[class_name]._extend(other.classes[class_name])
+                mine, theirs = self.classes[class_name], other.classes[class_name]
+                if mine._is_placeholder() and not theirs._is_placeholder():
+                    # The definition of a package arrives after a file that only
+                    # named it in its 'within' clause: the definition replaces
+                    # the placeholder and keeps the classes collected so far.
+                    theirs._extend(mine)
+                    self.classes[class_name] = theirs
+                else:
+                    mine._extend(theirs)
             else:
                 self.classes[class_name] = other.classes[class_name]
 
